@@ -118,6 +118,7 @@ func init() {
 			rulePoolRetain(c, "C17.POOL.NO-RETAIN") // an emitted option must not share storage that is recycled
 			ruleChainLoad(c, "C17.CHAIN.LOAD")      // the configured values reach the plugin: every setup is called with its own item's arguments
 			ruleOptions(c, "C17.")
+			c.R.Floor("C17.OPT.EMPTY-LIST", 4)
 			c.R.Floor("C17.POOL.NO-RETAIN", 2)
 			c.R.Floor("C17.CHAIN.LOAD", 2)
 			c.R.Floor("C17.OPT.GATE", 15)
